@@ -95,6 +95,13 @@ def view_merge(current, received):
     return received
 
 
+def filtering_view_merge(current, received):
+    """a reporting merge that leaves nested Mr values out (returns MISSING for them) and folds the rest like view_merge"""
+    if isinstance(received, Mr):
+        return MISSING
+    return view_merge(current, received)
+
+
 VIEW_MERGE_OBJECT = FalsyCallable(view_merge)
 
 
